@@ -25,3 +25,7 @@ def mk(k, tier, tag):
 
 
 OBLS = mk(3, 'quick', '') + mk(4, 'thorough', '/K4')
+OBLS.append(Obl('C14.6', 'C14/eloss.cc', 'obl_c14_mean_eloss', 'B', 'calc_mean_energy_loss over symbolic dE/dx and range tables (K=3), any linear-loss limit in (0,1], '
+                'energies inside the table: 0 <= loss <= E; loss == E for a range-limited step (tables consistent: rate*range >= limit*E)', mode='real',
+                validate=False, defines=('VERIF_K=3',), timeout=300, opts={'separate_asserts': True},
+                bounds='K=3 knots; energies inside the tabulated range; monotonicity in the step length across the linear/range switch is NOT asserted'))
